@@ -69,7 +69,7 @@ def _cached_cell(fn):
         c = cell.cell_contents
         if isinstance(c, CacheProxy) or (hasattr(c, "cache_info") and hasattr(c, "__wrapped__")):
             return cell
-    raise xs.HarnessError(f"{getattr(fn, '__name__', fn)}: no lru_cached function found in the decorator's closure (refactored?)")
+    return None
 
 
 _SETUP = {}
@@ -83,8 +83,14 @@ def setup():
     with xs.nt():
         env.install_parser_proxies()
         fc, fa = cep.parse_condition_expression_to_tree, aep.parse_ahb_expression_to_single_requirement_indicator_expressions
-        for fn in (fc, fa):
-            cell = _cached_cell(fn)
+        cells = [_cached_cell(fn) for fn in (fc, fa)]
+        if any(c is None for c in cells):
+            # the parse functions are not "copying decorator around an lru_cached function" any more: histories still run on
+            # the public functions (all lru caches of ahbicht were cleared above); only the scaled-down cache cannot be built
+            if key != 0:
+                raise xs.Inconclusive("parse functions are no longer a copying decorator around an lru_cached function: the scaled-down cache (maxsize 2) cannot be built; histories on the public functions still run")
+            return fc, fa
+        for cell in cells:
             if not isinstance(cell.cell_contents, CacheProxy):
                 cell.cell_contents = CacheProxy(cell.cell_contents)
             cell.cell_contents.cache_clear()
@@ -134,9 +140,15 @@ def _invoke(fns, op, text, s):
             import inspect
 
             raw = (cep.parse_condition_expression_to_tree, aep.parse_ahb_expression_to_single_requirement_indicator_expressions)[op]
-            fn = _cached_cell(raw).cell_contents
-            fn = getattr(fn, "real", fn)
-            _PARAM[op] = list(inspect.signature(fn.__wrapped__).parameters)[0]
+            cell = _cached_cell(raw)
+            if cell is not None:
+                fn = getattr(cell.cell_contents, "real", cell.cell_contents)
+                _PARAM[op] = list(inspect.signature(fn.__wrapped__).parameters)[0]
+            else:
+                ps = list(inspect.signature(raw).parameters.values())
+                _PARAM[op] = ps[0].name if ps and ps[0].kind in (ps[0].POSITIONAL_OR_KEYWORD, ps[0].KEYWORD_ONLY) else None
+    if _PARAM[op] is None:
+        return fns[op](text)
     return fns[op](**{_PARAM[op]: text})
 
 
